@@ -43,26 +43,87 @@ import (
 var p = &mysql.Field{Name: []byte("?")}
 var c = &mysql.Field{}
 
+// scanner states of CalcParams
+const (
+	scanSQL          = iota // outside of literals, quoted identifiers and comments
+	scanString              // inside '...' or "..."
+	scanQuotedIdent         // inside `...`
+	scanLineComment         // after # or "-- ", up to the end of the line
+	scanBlockComment        // inside /* ... */
+)
+
+// isSpaceOrControl tells whether c may follow "--" to start a comment.
+func isSpaceOrControl(c byte) bool {
+	return c <= ' ' || c == 0x7f
+}
+
+// CalcParams finds the parameter markers of sql: every '?' that is not part of
+// a string literal ('...' or "...", in which a backslash escapes the next byte
+// and a doubled quote stands for the quote), of a back-quoted identifier or of
+// a comment (# ..., -- ..., /* ... */). The body of /*! ... */ is SQL for
+// MySQL, so a '?' in it is a parameter.
 func CalcParams(sql string) (count int, offsets []int, sqlItems []string, err error) {
-	quoteChar := ""
+	state := scanSQL
+	var quoteChar byte
+	versionComment := false // inside /*! ... */
+	skip := 0               // following bytes that belong to the element just recognised
 	offsets = make([]int, 0)
 	sqlItems = make([]string, 0)
 	subBeginIndex := 0
 
 	for i, elem := range []byte(sql) {
-		if elem == '\\' {
+		if skip > 0 {
+			skip--
 			continue
-		} else if elem == '"' || elem == '\'' {
-			if quoteChar == "" {
-				quoteChar = string(elem)
-			} else if quoteChar == string(elem) {
-				quoteChar = ""
+		}
+		switch state {
+		case scanString:
+			if elem == '\\' {
+				skip = 1
+			} else if elem == quoteChar {
+				// a doubled quote closes the literal here and reopens it at the next byte
+				state = scanSQL
 			}
-		} else if quoteChar == "" && elem == '?' {
-			count++
-			offsets = append(offsets, i)
-			sqlItems = append(sqlItems, sql[subBeginIndex:i], "?")
-			subBeginIndex = i + 1
+		case scanQuotedIdent:
+			if elem == '`' {
+				state = scanSQL
+			}
+		case scanLineComment:
+			if elem == '\n' {
+				state = scanSQL
+			}
+		case scanBlockComment:
+			if elem == '*' && i+1 < len(sql) && sql[i+1] == '/' {
+				skip = 1
+				state = scanSQL
+			}
+		default:
+			if elem == '"' || elem == '\'' {
+				state = scanString
+				quoteChar = elem
+			} else if elem == '`' {
+				state = scanQuotedIdent
+			} else if elem == '#' {
+				state = scanLineComment
+			} else if elem == '-' && i+2 < len(sql) && sql[i+1] == '-' && isSpaceOrControl(sql[i+2]) {
+				state = scanLineComment
+			} else if elem == '/' && i+1 < len(sql) && sql[i+1] == '*' {
+				if i+2 < len(sql) && sql[i+2] == '!' {
+					skip = 2
+					versionComment = true
+				} else {
+					skip = 1
+					state = scanBlockComment
+				}
+			} else if elem == '*' && versionComment && i+1 < len(sql) && sql[i+1] == '/' {
+				skip = 1
+				versionComment = false
+			} else if elem == '?' {
+				count++
+				offsets = append(offsets, i)
+				sqlItems = append(sqlItems, sql[subBeginIndex:i], "?")
+				subBeginIndex = i + 1
+			}
 		}
 	}
 
@@ -71,8 +132,8 @@ func CalcParams(sql string) (count int, offsets []int, sqlItems []string, err er
 		sqlItems = append(sqlItems, sql[subBeginIndex:])
 	}
 
-	// quote char not match
-	if quoteChar != "" {
+	// unterminated literal, quoted identifier or comment
+	if state == scanString || state == scanQuotedIdent || state == scanBlockComment || versionComment {
 		err = fmt.Errorf("fatal situation")
 		return
 	}
